@@ -77,7 +77,7 @@ def summary(ctx, mod):
             if isinstance(sl, Ref):
                 sl = eng_.M.read_path(st, sl.loc, sl.path)
             events.append({"fn": f["path"], "slice": sl, "key": st.key, "state": st})
-            st.notes = st.notes + (("read_exact", len(events) - 1),)
+            st.key = st.key + (("rx", len(events) - 1),)  # part of the partition key: survives joins
         return None
 
     eng.on_call = on_call
@@ -122,7 +122,7 @@ def check(ctx, mod):
             R.violation("INV", fn + "|preserved", "an exit of next_message_slice leaves the scratch buffer with length %s instead of %d: the struct invariant is not preserved" % (getattr(buf, "len", "?"), K), function=fn, file=fl, line=ln)
         else:
             R.obligation("INV", fn + "|preserved|%r" % (st.key,), "discharged", "len(buffer) unchanged at exit")
-        reads = [n[1] for n in st.notes if n[0] == "read_exact"]
+        reads = [n[1] for n in st.key if n[0] == "rx"]
         wsh = None
         for k in st.key:
             if k[0] == "sym" and k[1] == "with_storage_header":
@@ -151,7 +151,7 @@ def check(ctx, mod):
             R.violation("ALG", fn + "|partition", "exit not partitioned by with_storage_header", function=fn, kind="UNRECOGNISED-SHAPE")
             continue
         s = storage_len[wsh]
-        evs = [S["events"][i] for i in [n[1] for n in st.notes if n[0] == "read_exact"]]
+        evs = [S["events"][i] for i in [n[1] for n in st.key if n[0] == "rx"]]
         if row["result"] == "Ok" and not row.get("empty"):
             # a message slice: both reads happened and succeeded, slice = buffer[0 .. s+L)
             n_ok_full += 1
@@ -219,7 +219,7 @@ def normalised(S):
     the filled ranges, the result variant and the returned range (buffer identity erased)."""
     out = set()
     for row, st, fs in S["rows"]:
-        evs = [S["events"][i] for i in [n[1] for n in st.notes if n[0] == "read_exact"]]
+        evs = [S["events"][i] for i in [n[1] for n in st.key if n[0] == "rx"]]
         ranges = tuple((repr(e["slice"].off), _unbase(repr(e["slice"].len))) if isinstance(e["slice"], Slice) else ("?", "?") for e in evs)
         ios = tuple(k[1] for k in st.key if k[0] == "io")
         sl = None
@@ -253,6 +253,14 @@ def sibling_check(ctx, S_async):
         R.violation("SIB", "read|summary", "cannot summarise the blocking reader", kind="UNRECOGNISED-SHAPE")
         return
     a, b = S_async["norm"], S_sync["norm"]
+    # error kinds are compared only where both sides resolve them (an unresolved `?` conversion is not a difference)
+    ka = {r[:5] for r in a if r[5] is None}
+    kb = {r[:5] for r in b if r[5] is None}
+    a = {r if (r[5] is not None and r[:5] not in kb) else r[:5] + (None,) for r in a}
+    b = {r if (r[5] is not None and r[:5] not in ka) else r[:5] + (None,) for r in b}
+    both = {r[:5] for r in a} & {r[:5] for r in b}
+    a = {(r[:5] + (None,)) if (r[:5] in both and (r[:5] + (None,)) in b) else r for r in a}
+    b = {(r[:5] + (None,)) if (r[:5] in both and (r[:5] + (None,)) in a) else r for r in b}
     if S_async["K"] != S_sync["K"]:
         R.violation("SIB", "capacity", "the async reader's scratch buffer has %d bytes, the blocking reader's %d" % (S_async["K"], S_sync["K"]), function=S_async["N"]["new"])
     else:
